@@ -116,6 +116,7 @@ type Sim struct {
 	blockRes  []abci.ResponseDeliverTx
 	Names     map[string]string // hex address -> symbolic name
 	LastUpdates []abci.ValidatorUpdate
+	IndexerFailed string // last error of the tx indexer (replay protection is then inert)
 }
 
 type ValInfo struct {
@@ -521,9 +522,18 @@ func (s *Sim) Commit() []byte {
 		for i, tx := range s.blockTxs {
 			_ = b.Add(&tmtypes.TxResult{Height: s.Height, Index: uint32(i), Tx: tx, Result: s.blockRes[i]})
 		}
-		if err := s.Indexer.AddBatch(b); err != nil {
-			panic(fmt.Sprintf("chainsim: indexer AddBatch: %v", err))
-		}
+		func() {
+			// the indexer encodes results with the height-0 codec; on chains whose upgrade
+			// height was reset to 0 that fails - remember it instead of killing the run
+			defer func() {
+				if r := recover(); r != nil {
+					s.IndexerFailed = fmt.Sprint(r)
+				}
+			}()
+			if err := s.Indexer.AddBatch(b); err != nil {
+				s.IndexerFailed = err.Error()
+			}
+		}()
 	}
 	return r.Data
 }
